@@ -104,7 +104,7 @@ func tryReplay(cfg *PropCfg, fn, name string, o *Obligation, sess *Session, dir 
 	}
 	tf := filepath.Join(scratch, "zz_verif_replay_test.go")
 	os.WriteFile(tf, []byte(src), 0o644)
-	ov := map[string]map[string]string{"Replace": {filepath.Join("/repo", pkgdir, "zz_verif_replay_test.go"): tf}}
+	ov := map[string]map[string]string{"Replace": {filepath.Join(repoRoot(), pkgdir, "zz_verif_replay_test.go"): tf}}
 	ob, _ := json.Marshal(ov)
 	of := filepath.Join(scratch, "overlay.json")
 	os.WriteFile(of, ob, 0o644)
@@ -113,7 +113,7 @@ func tryReplay(cfg *PropCfg, fn, name string, o *Obligation, sess *Session, dir 
 		rel = "."
 	}
 	cmd := exec.Command("go", "test", "-overlay", of, "-vet=off", "-count=1", "-timeout", "120s", "-run", "TestVerifReplay", "-v", rel)
-	cmd.Dir = filepath.Join("/repo", module)
+	cmd.Dir = filepath.Join(repoRoot(), module)
 	cmd.Env = append(os.Environ(), "GOFLAGS=-mod=mod", "GOPROXY=off", "GOSUMDB=off", "GOTOOLCHAIN=local")
 	t0 := time.Now()
 	out, _ := cmd.CombinedOutput()
